@@ -60,6 +60,10 @@ CHECKS = {
    text="Seeded concurrent scripts of Write/Read/WriteTo/CloseWrite/CloseRead/Close/Set*Deadline from 2-4 goroutines per end on the real pipe inside synctest bubbles; byte j of write w identifies its write; call/return stamped from one logical counter; a history oracle decides only happens-before pairs (runs per write, no interleaving, close and deadline rules in virtual time, deadlock detection); plus a lock-step sequential part with an exact model.",
    note="Concurrent writers combined with starving readers are not explored (mutex waiters are not durably blocked for synctest).",
    tech="runtime monitoring: history checker over recorded call/return events on a virtual clock (race detector)"),
+ "C16": dict(cat="exploration",
+   text="Scripted raw-byte client <-> real httpproxy server and its non-CONNECT forwarder <-> scripted origin, in memory on a virtual clock: pipelined request sequences with header casing/repetition, Connection nominations, Upgrade, proxy credentials, Content-Length and chunked bodies with trailers, interim 1xx, bodiless and close-delimited responses, redirects with/without Location, host changes, later CONNECT, early closes, Basic-auth retries; an own strict HTTP/1.1 parser compares messages semantically minus hop-by-hop fields.",
+   note="Four genuine deviations are open known findings (F19-F22); a request pipelined behind the client's own Connection: close is a documented don't-care.",
+   tech="runtime monitoring: semantic message-equality oracle over captured origin/client byte streams (plain + race detector)"),
 }
 
 PENDING_DEFAULT = "check under construction in this session (design in DESIGN.md §4); not claimed until its monitor runs clean on the unchanged tree"
